@@ -174,6 +174,12 @@ func (fr *Frame) frameObligations(ct *Contract, entry *State, r retInfo, ri int,
 	vc := fr.vc
 	acc := map[string]bool{}
 	vc.changedBetween(entry.heap, r.heap, acc, map[*Heap]bool{})
+	touched := map[string]bool{}
+	for f := range vc.famSort {
+		touched[f] = true
+	}
+	vc.registerAllFamilies()
+	var others []string
 	var allowedLocs []*Loc
 	allowedFams := map[string]bool{}
 	for _, m := range ct.Modifies {
@@ -217,7 +223,14 @@ func (fr *Frame) frameObligations(ct *Contract, entry *State, r retInfo, ri int,
 			}
 			goal = "(forall ((" + x + " Int)) (=> " + and(conds...) + " (= (select " + b + " " + x + ") (select " + a + " " + x + "))))"
 		}
+		if !touched[f] {
+			others = append(others, goal)
+			continue
+		}
 		fr.oblige("frame", fmt.Sprintf("%s.ret%d", sanitize(f), ri+1), goal, nil, r.blk.Instrs[len(r.blk.Instrs)-1].Pos(), "modifies clause: "+f+" unchanged outside "+strings.Join(ct.Modifies, ", "))
+	}
+	if len(others) > 0 {
+		fr.oblige("frame", fmt.Sprintf("all-other-families.ret%d", ri+1), and(others...), nil, r.blk.Instrs[len(r.blk.Instrs)-1].Pos(), fmt.Sprintf("modifies clause: the %d families never mentioned by the function are unchanged (they can change only through a wildcard havoc)", len(others)))
 	}
 }
 
